@@ -141,6 +141,8 @@ def enabled(w: World, tier: str) -> list[tuple]:
 
 def apply(w: World, op: tuple) -> None:
     k, who, arg = op[0], op[1], op[2]
+    if isinstance(arg, tuple) and arg and arg[0] == "t":
+        arg = w.tids[arg[1]]  # symbolic reference: the i-th trial created in this history
     c = w.client(who)
     if k == "create":
         kind = op[3]
@@ -166,6 +168,15 @@ def apply(w: World, op: tuple) -> None:
         w.sids[0] = c.create_new_study([MAX], "S1b")
     else:
         raise ValueError(op)
+
+
+# Non-initial states: exploration also continues from each of these prefixes (quick: depth 2 below).
+SEEDS = {
+    "foreign-running-below-watermark": [("create", "R", 0, None), ("create", "B", 0, "comp"), ("read", "A", 0)],
+    "own-and-foreign-unread": [("create", "A", 0, None), ("create", "R", 0, None), ("create", "B", 0, "comp")],
+    "foreign-waiting-read": [("create", "R", 0, "bare_wait"), ("create", "R", 0, None), ("read", "A", 0)],
+    "finished-out-of-order": [("create", "R", 0, None), ("create", "B", 0, None), ("read", "A", 0), ("finish", "B", ("t", 1))],
+}
 
 
 FILTERS = {"none": None, "running": (TrialState.RUNNING,), "waiting": (TrialState.WAITING,),
@@ -272,6 +283,8 @@ def task_fn(task: tuple) -> dict:
     kind, first_idx, depth, tier, second_idx = task
     backends.setup_determinism()
     part = Part()
+    if isinstance(first_idx, str):
+        return seed_task(kind, first_idx, depth, tier, second_idx, part)
     w0 = build(kind, [])
     ops0 = enabled(w0, tier)
     w0.close()
@@ -332,6 +345,47 @@ def replay_case(raw: dict, part: Part) -> None:
         w.close()
 
 
+def seed_task(kind: str, seed: str, depth: int, tier: str, first: int, part: Part) -> dict:
+    """Breadth-first below a seeded prefix; partition = index of the first operation after it."""
+    prefix = list(SEEDS[seed])
+    w = build(kind, prefix)
+    try:
+        ops = enabled(w, tier)
+        if first == 0:
+            part.add("transitions")
+            compare(w, part, prefix, kind)
+    finally:
+        w.close()
+    if first >= len(ops):
+        return part.out()
+    seen: set = set()
+    frontier = [prefix + [ops[first]]]
+    for d in range(depth):
+        nxt = []
+        for hist in frontier:
+            try:
+                w = build(kind, hist)
+            except Exception as e:
+                part.violation(f"{kind}|op-raised|{hist[-1][0]}:{type(e).__name__}", {"history": hist, "error": str(e)[:200]})
+                continue
+            try:
+                part.add("transitions")
+                good = compare(w, part, hist, kind)
+                key = digest(w)
+                if not good or key in seen:
+                    continue
+                seen.add(key)
+                if d < depth - 1:
+                    for op in enabled(w, tier):
+                        nxt.append(hist + [op])
+            finally:
+                w.close()
+        frontier = nxt
+    part.add("states", len(seen))
+    part.add("traces_validated_against_impl", part.cov.get("transitions", 0))
+    return part.out()
+
+
 def run(tier: str, replay: str | None = None) -> int:
     backends.setup_determinism()
     ctx = Ctx(PID, tier, "model_checking")
@@ -348,6 +402,10 @@ def run(tier: str, replay: str | None = None) -> int:
                     tasks.append((kind, i, depth, tier, j))
             else:
                 tasks.append((kind, i, depth, tier, None))
+    for kind in ("cached", "grpc(cached)", "grpc(mem)"):
+        for seed in SEEDS:
+            for i in range(30):
+                tasks.append((kind, seed, 2 if tier == "quick" else 3, tier, i))
     only = os.environ.get("VF_CONFIGS")
     if only:
         tasks = [t for t in tasks if t[0] in only.split(",")]
@@ -360,7 +418,7 @@ def run(tier: str, replay: str | None = None) -> int:
     backends.cleanup_root()
     return ctx.finish(
         exhaustive=True,
-        rule="every history of depth 3 (cached, grpc(mem)) / 2 (grpc(cached)); +1 thorough; over create(A/B/R, 2 studies, RUNNING/WAITING/finished), finish/attr by A or B, claim, read by A/B, foreign delete+recreate; de-duplicated on (database, A cache, B cache)",
+        rule="4 seeded non-initial states (foreign trials below the watermark, out-of-order finishes) + depth 2 (thorough 3); every history of depth 3 (cached, grpc(mem)) / 2 (grpc(cached)); +1 thorough; over create(A/B/R, 2 studies, RUNNING/WAITING/finished), finish/attr by A or B, claim, read by A/B, foreign delete+recreate; de-duplicated on (database, A cache, B cache)",
     )
 
 
